@@ -455,3 +455,13 @@ Definition exh_pre2 : list op := exh_pre ++ [ONewPeer 2 0 10 true].
 (* a client that is current at clock reading 3000, and a second peer *)
 Definition exh_pre3 : list op :=
   [ONewPeer 1 0 2 true; OHeaders 1 3000 [ex_h1; ex_h2]; ONewPeer 2 0 5 true].
+(* a restart: the client has 100..103, is stopped and started again (window =
+   the stored tip at height 3 alone, no peers), then peer 2 connects and
+   offers branches forking at height 1, i.e. below everything the window
+   holds: the known-work walk has to read height 2 from the store *)
+Definition exr_pre : list op :=
+  [ONewPeer 1 0 10 true; OHeaders 1 ex_now [ex_h1; ex_h2; ex_h3]; OWriteCF 7 [8; 9] 102;
+   ORestart; ONewPeer 2 0 10 true].
+Definition exr_tie : list header := [ex_f2; ex_f3].            (* two headers against two *)
+Definition exr_lighter : list header := [ex_f2].               (* one against two *)
+Definition exr_heavier : list header := [ex_f2; ex_f3; ex_f4]. (* three against two *)
